@@ -983,7 +983,7 @@ Val genFilter(Rng& r, const Val* shapeLike, int depth) {
       go.asciiOnly = true;
       key = genString(r, go, true);
     }
-    if (key == "*" || key.find('\0') != std::string::npos || f.member(key))
+    if (key == "*" || f.member(key))
       continue;
     Val sub = genFilter(r, child, depth + 1);
     if (wildcard && sub.k == K::Null)
@@ -1006,7 +1006,7 @@ GenOpts inputOpts(bool mp) {
   g.allowBin = mp;
   g.allowNonFinite = mp;
   g.allowNulInStr = true;
-  g.allowNulInKey = false;
+  g.allowNulInKey = true;  // keys are compared with their size since /repo 509e18d
   return g;
 }
 
